@@ -222,9 +222,34 @@ class ClassBuilder:
       lo, hi = ["sig", a], ["sig", b]
     return ["vslice", ref, lo, hi, w]
 
+  def fcall(self, w, env):
+    """a call of a value-returning helper function (@s.func with parameters): an existing one of this width - so that
+    several blocks share one helper - or a new one whose body combines its argument with signals read inside"""
+    d = self.draw
+    have = [f for f in self.funcs if "ret" in f]
+    if have and d(st.integers(0, 2)) > 0:
+      f = d(st.sampled_from(have))
+      call = ["fcall", f["name"], [self.expr(f["params"][0][1], dict(env, no_fcall=True), 2)]]
+      rw = f["rw"]
+      return call if rw == w else (["trunc", call, w] if rw > w else ["zext", call, w])
+    else:
+      pw = w if d(st.booleans()) else W(d, self.opts)
+      arg = ["arg", "x"]
+      a = arg if pw == w else (["trunc", arg, w] if pw > w else ["zext", arg, w])
+      body_env = {"tmps": [], "lv": [], "maxd": 2, "no_fcall": True, "no_lsel": True}
+      ret = ["bin", d(st.sampled_from(["+", "^", "|", "&", "-"])), a, self.sig_leaf(w, body_env)]
+      if d(st.booleans()): ret = ["bin", d(st.sampled_from(["+", "^"])), ret, self.expr(w, body_env, 1)]
+      f = {"name": self.fresh("fv"), "stmts": [], "params": [["x", pw]], "ret": ret, "rw": w, "early": d(st.booleans())}
+      self.funcs.append(f)
+    return ["fcall", f["name"], [self.expr(f["params"][0][1], dict(env, no_fcall=True), 2)]]
+
   def _expr(self, w, env, depth=0):
     d = self.draw
     maxd = env.get("maxd", 3)
+    o_ = self.opts
+    if o_["funcs"] and not o_["translatable"] and not o_["sloppy"] and not env.get("no_fcall") and not env.get("ff") \
+       and w <= 64 and d(st.integers(0, 39)) < o_["funcs"]:
+      return self.fcall(w, env)
     if self.opts["sloppy"] and w <= 8 and d(st.integers(0, 19)) == 0:
       e = self.vslice(w, env)
       if e is not None: return e
@@ -530,7 +555,7 @@ class ClassBuilder:
       if how >= 2 and how - 2 < self.opts["conn_bias"]: how = 0
       if (self.opts["lambdas"] and how == 1 and pt[0] == "b" and not ref["inst"] and not ref["fld"] and
           ref["sl"] is None and "[" not in ref["sig"] and d(st.booleans())):
-        e = self.expr(w, {"tmps": [], "lv": [], "maxd": 2})
+        e = self.expr(w, {"tmps": [], "lv": [], "maxd": 2, "no_fcall": True})
         if not _is_constant(e) and _mentions_signal(e):
           # (a lambda whose body never mentions `s` cannot be turned into an update block by pymtl3)
           self.blocks.append({"name": "lam:" + ref["sig"].replace(".", "_"), "kind": "comb", "lambda": True,
@@ -885,7 +910,7 @@ def _flat(t):
 def _is_constant(e):
   k = e[0]
   if k in ("const", "lit", "cvar"): return True
-  if k in ("sig", "tmp", "tmpsl", "lv", "bit", "slice_lv", "lsel", "vslice"): return False
+  if k in ("sig", "tmp", "tmpsl", "lv", "bit", "slice_lv", "lsel", "vslice", "fcall", "arg"): return False
   if k == "bin": return _is_constant(e[2]) and _is_constant(e[3])
   if k in ("shl", "shr"): return _is_constant(e[1]) and _is_constant(e[2])
   if k == "cmp": return _is_constant(e[2]) and _is_constant(e[3])
@@ -1044,6 +1069,9 @@ def features(design):
     if any("." in n and n.endswith("]") for n, _, _ in c["ports"]): out.add("has_interface_with_port_list")
     if any(b.get("lambda") for b in c["blocks"]): out.add("has_lambda_connection")
     if c.get("funcs"): out.add("has_helper_function")
+    if any("ret" in f for f in c.get("funcs", [])): out.add("has_value_returning_function")
+    js = __import__("json").dumps([b["stmts"] for b in c["blocks"]])
+    if any("ret" in f and js.count('"fcall", "%s"' % f["name"]) >= 2 for f in c.get("funcs", [])): out.add("has_function_called_twice")
     if any(b["kind"] == "ff" and '"inst": "' in __import__("json").dumps(b["stmts"]).replace('"inst": ""', "") for b in c["blocks"]): out.add("has_child_input_register")
     if any(f["stmts"] and all(x[0] == "call" for x in f["stmts"]) for f in c.get("funcs", [])): out.add("has_pure_wrapper_function")
     if any("[" in n for n, _, _ in c["ports"]) or any("[" in n for n, _ in c["wires"]): out.add("has_signal_list")
